@@ -41,6 +41,14 @@ impl Ssse3 {
     }
 }
 
+#[cfg(feature = "verif-hooks")]
+impl Ssse3 {
+    /// Verification builds only: engine over the given tables.
+    pub fn verif_with_tables(mul128: &'static Mul128, skew: &'static Skew) -> Self {
+        Self { mul128, skew }
+    }
+}
+
 impl Engine for Ssse3 {
     fn fft(
         &self,
@@ -96,6 +104,9 @@ impl Default for Ssse3 {
 impl Ssse3 {
     #[target_feature(enable = "ssse3")]
     unsafe fn mul_ssse3(&self, x: &mut [[u8; 64]], log_m: GfElement) {
+        #[cfg(feature = "verif-hooks")]
+        crate::verif_hooks::trace_isa(crate::verif_hooks::ISA_SSSE3);
+
         let lut = &self.mul128[log_m as usize];
 
         for chunk in x.iter_mut() {
@@ -268,6 +279,9 @@ impl Ssse3 {
         truncated_size: usize,
         skew_delta: usize,
     ) {
+        #[cfg(feature = "verif-hooks")]
+        crate::verif_hooks::trace_isa(crate::verif_hooks::ISA_SSSE3);
+
         // Drop unsafe privileges
         self.fft_private(data, pos, size, truncated_size, skew_delta);
     }
@@ -420,6 +434,9 @@ impl Ssse3 {
         truncated_size: usize,
         skew_delta: usize,
     ) {
+        #[cfg(feature = "verif-hooks")]
+        crate::verif_hooks::trace_isa(crate::verif_hooks::ISA_SSSE3);
+
         // Drop unsafe privileges
         self.ifft_private(data, pos, size, truncated_size, skew_delta);
     }
@@ -482,6 +499,9 @@ impl Ssse3 {
 impl Ssse3 {
     #[target_feature(enable = "ssse3")]
     unsafe fn eval_poly_ssse3(erasures: &mut [GfElement; GF_ORDER], truncated_size: usize) {
+        #[cfg(feature = "verif-hooks")]
+        crate::verif_hooks::trace_isa(crate::verif_hooks::ISA_SSSE3);
+
         utils::eval_poly(erasures, truncated_size);
     }
 }
